@@ -95,17 +95,23 @@ type crashStore interface {
 	Close() error
 }
 
-// even seeds: a store built here without a depth limit (Enqueue takes the autocommit single-INSERT path);
-// odd seeds: the store run() builds from the compiled configuration (limits, retention, DLQ wiring; BEGIN IMMEDIATE … COMMIT path)
+// seed mod 3 = 0: a store built here without a depth limit (Enqueue takes the autocommit single-INSERT path);
+// 1: the store run() builds from the compiled configuration (limits, retention, DLQ wiring; BEGIN IMMEDIATE … COMMIT path);
+// 2: the same with `drop_policy drop_oldest`
 func openCrashStore(path string, seed uint64) (crashStore, error) {
-	if seed%2 == 0 {
+	if seed%3 == 0 {
 		return queue.NewSQLiteStore(path,
 			queue.WithSQLiteQueueLimits(0, "reject"),
 			queue.WithSQLiteDeliveredRetention(time.Hour),
 			queue.WithSQLiteDLQRetention(time.Hour, 100000),
 			queue.WithSQLiteCheckpointInterval(3*time.Millisecond))
 	}
-	compiled, err := compileText(crashCfgText)
+	text := crashCfgText
+	if seed%3 == 2 {
+		// drop_oldest configured with a depth that is never reached: the eviction code paths are taken, nothing is evicted
+		text = "queue_limits {\n  max_depth 100000\n  drop_policy drop_oldest\n}\n" + text
+	}
+	compiled, err := compileText(text)
 	if err != nil {
 		return nil, err
 	}
@@ -180,7 +186,15 @@ func cmdCrashChild(args []string) error {
 			say("DONE", s)
 			return rr
 		}
-		switch k := r.weighted([]int{34, 18, 18, 30}); {
+		switch k := r.weighted([]int{34, 18, 18, 30, 8}); {
+		case k == 4: // a batch of lease ids nobody holds (a consumer retrying after its own restart): every id conflicts
+			s.Kind, s.Route = "ackbatch-unknown", "/one"
+			op := pick(r, []string{"ack", "nack"})
+			body := fmt.Sprintf(`{"lease_ids":["lease_nobody_%d_a","lease_nobody_%d_b"]}`, i, i)
+			if op == "nack" {
+				body = fmt.Sprintf(`{"lease_ids":["lease_nobody_%d_a","lease_nobody_%d_b"],"delay":"1h"}`, i, i)
+			}
+			do(pull, "POST", "http://ex/pull/one/"+op, body, map[string]string{"Authorization": "Bearer t"})
 		case k == 0: // ingress with fan-out
 			s.Kind, s.Route = "ingress", pick(r, []string{"/fan", "/fan", "/two", "/one"})
 			s.Targets, s.Body = crashTargets[s.Route], fmt.Sprintf("r%d-%d", *seed, i)
@@ -224,7 +238,18 @@ func cmdCrashChild(args []string) error {
 			l := leases[j]
 			leases = append(leases[:j], leases[j+1:]...)
 			s.Route, s.Key, s.Targets = "/one", l.key, []string{"pull"}
-			switch r.intn(3) {
+			switch r.intn(4) {
+			case 3: // the batch form, mixed with an id nobody holds (answers 409 with acked 1: the settled id is acknowledged)
+				s.Kind = "ack"
+				rr := do(pull, "POST", "http://ex/pull/one/ack", fmt.Sprintf(`{"lease_ids":[%q,"lease_nobody_%d"]}`, l.id, i), map[string]string{"Authorization": "Bearer t"})
+				var br struct {
+					Acked int `json:"acked"`
+				}
+				_ = json.Unmarshal(rr.Body.Bytes(), &br)
+				if br.Acked == 1 {
+					s.Status = 204 // acknowledged for the one lease this record is about
+					say("DONE", s)
+				}
 			case 0:
 				s.Kind = "ack"
 				do(pull, "POST", "http://ex/pull/one/ack", fmt.Sprintf(`{"lease_id":%q}`, l.id), map[string]string{"Authorization": "Bearer t"})
@@ -483,7 +508,10 @@ func cmdCrash(args []string) error {
 			// every label at least once, the rest at random
 			seen := map[string]bool{}
 			for _, l := range labels {
-				chosen = append(chosen, fmt.Sprintf("%s:%d", l, 1+r.intn(hits[l])))
+				chosen = append(chosen, fmt.Sprintf("%s:1", l)) // the first hit (store open / migration, first request)
+				if hits[l] > 1 {
+					chosen = append(chosen, fmt.Sprintf("%s:%d", l, 2+r.intn(hits[l]-1)))
+				}
 			}
 			for _, c := range chosen {
 				seen[c] = true
